@@ -206,7 +206,9 @@ impl PageTree {
             let node = resolve.get(kid)?;
             match *node {
                 PagesNode::Tree(ref tree) => {
-                    if (pos .. pos + tree.count).contains(&page_nr) {
+                    // pos <= page_nr holds here; comparing the offset avoids `pos + tree.count`,
+                    // which overflows for untrue counts
+                    if page_nr - pos < tree.count {
                         return tree.page_limited(resolve, page_nr - pos, depth - 1);
                     }
                     pos += tree.count;
